@@ -42,6 +42,14 @@ def mism(ctx, what, expected, got):
                            'got': got, 'impl': impl, 'case_idx': childlib.CASE[0]})
 
 
+class Watcher:
+    def changed(self, originally_changed):
+        pass
+
+
+WATCHER = Watcher()
+
+
 class FalsyMeta(type):
     """classes that are false in a boolean context"""
 
@@ -61,9 +69,17 @@ class World:
         ib = job['ibases']
         self.iface = {0: Interface}
         for i in range(1, len(ib)):
-            I = InterfaceClass('I%d' % i,
-                               tuple(self.iface[b] for b in fget0(ib, i)) or
-                               (Interface,), __module__=self.modname)
+            bases = tuple(self.iface[b] for b in fget0(ib, i)) or (Interface,)
+            if (i + World.serial) % 2:
+                # a class statement inside a function, published in its
+                # module under its name: importable, but its qualified name
+                # ('make.<locals>.I1') is not a path to it
+                ns = {'bases': bases, '__name__': self.modname}
+                exec('def make():\n    class I%d(*bases):\n        pass\n'
+                     '    return I%d\n' % (i, i), ns)
+                I = ns['make']()
+            else:
+                I = InterfaceClass('I%d' % i, bases, __module__=self.modname)
             self.iface[i] = I
             setattr(self.mod, 'I%d' % i, I)
         pb = job['pybases']
@@ -87,8 +103,31 @@ class World:
         self.obj = {}
         for i, c in enumerate(job['classof']):
             self.obj[i + 1] = self.cls[c]()
+        self.watched = {}
+
+    def watch(self):
+        """Specifications in use are WATCHED: lookup caches that were asked
+        about an object are dependents of its declaration.  A dependent that
+        does nothing is subscribed to every declaration reachable from the
+        world's classes and instances."""
+        for x in list(self.cls.values())[1:] + list(self.obj.values()):
+            for spec in (getattr(x, '__provides__', None),
+                         getattr(x, '__implemented__', None)):
+                sub = getattr(spec, 'subscribe', None)
+                if sub is None or id(spec) in self.watched:
+                    continue
+                try:
+                    sub(WATCHER)
+                except TypeError:
+                    continue
+                self.watched[id(spec)] = spec
 
     def close(self):
+        for spec in self.watched.values():
+            try:
+                spec.unsubscribe(WATCHER)
+            except KeyError:
+                pass
         sys.modules.pop(self.modname, None)
         for K in self.builtins:
             BuiltinImplementationSpecifications.pop(K, None)
@@ -383,6 +422,8 @@ def run_case(case):
             trail.append({k: v for k, v in st['act'].items()})
             ctx = {'steps': list(trail)}
             w.apply(st['act'], ctx)
+            if job.get('watch'):
+                w.watch()
             if st.get('obs') is not None:
                 w.probe(st['obs'], ctx)
     finally:
